@@ -361,10 +361,10 @@ func runRows(cfg rowsCfg, ch func(int, []int) int, grace time.Duration) *scenOut
 		})
 	}
 	for j, off := range cfg.readers {
-		off := off
+		j, off := j, off
 		s.Go(len(cfg.writers)+j, func() {
 			s.Yield("r.begin", off>>14)
-			c.QueryAt(off, func(r column.Row) error {
+			cb := func(r column.Row) error {
 				a, ok1 := r.Int64("a")
 				s.Yield("r.mid", off>>14)
 				b, ok2 := r.Int64("b")
@@ -374,7 +374,16 @@ func runRows(cfg rowsCfg, ch func(int, []int) int, grace time.Duration) *scenOut
 				seens = append(seens, seen{off, a, b, ok1 && ok2, g, h})
 				seenMu.Unlock()
 				return nil
-			})
+			}
+			if j%2 == 0 {
+				// a point read inside a transaction that has already initialised its selection
+				c.Query(func(txn *column.Txn) error {
+					txn.Count()
+					return txn.QueryAt(off, cb)
+				})
+			} else {
+				c.QueryAt(off, cb)
+			}
 			s.Yield("r.end", off>>14)
 		})
 	}
